@@ -201,6 +201,25 @@ func gen(r *rand.Rand, prop, tier string, index int) any {
 	} else if r.IntN(3) == 0 {
 		s.Shadow = []int{1, 2, 4}[r.IntN(3)]
 	}
+	if s.Mode == "clean" && r.IntN(40) == 0 {
+		// a long one-sided burst: several hundred data messages under one key
+		// pair (the peer never answers, so the keys are not rotated and the
+		// 8-byte message counter runs through its second byte)
+		side := r.IntN(2)
+		var ops [2][]Op
+		ops[r.IntN(2)] = []Op{{K: "query"}}
+		for i, n := 0, 258+r.IntN(50); i < n; i++ {
+			ops[side] = append(ops[side], Op{K: "data", N: r.IntN(4), Seed: r.Uint64()})
+		}
+		s.Sessions = []Session{{Ops: ops}}
+		s.Shadow = 0
+		if s.Frag[0] != 0 && s.Frag[0] < 200 {
+			s.Frag[0] = 0
+		}
+		if s.Frag[1] != 0 && s.Frag[1] < 200 {
+			s.Frag[1] = 0
+		}
+	}
 	return s
 }
 
